@@ -167,6 +167,15 @@ theorem c11_bytes (b : Buf) (ops : List Op) (h : WF b) (hf : Fits b ops) :
       WF (run b ops).1 :=
   ⟨(run_spec ops b h hf).2, (run_spec ops b h hf).1⟩
 
+/-- The no-overflow hypothesis `Fits` follows from a bound on the sizes: `Grow` never makes
+the capacity larger than `max(initial capacity, 3·(initial offset + total bytes asked for))`.
+E.g. initial capacity and total size below 2^54 suffice. -/
+theorem fits_of_total (b : Buf) (ops : List Op) (h : WF b)
+    (hk : 8 * max b.curSz (3 * (b.offset + totalSize ops)) + 8 * totalSize ops + 128 < 2 ^ 62) :
+    Fits b ops :=
+  RV.Buffer.fits_of_total (max b.curSz (3 * (b.offset + totalSize ops))) ops b h
+    (Nat.le_max_left _ _) (Nat.le_max_right _ _) hk
+
 /-- the same from any constructor configuration: the log starts empty -/
 theorem c11_bytes_fresh (b : Buf) (ops : List Op) (h : Fresh b) (hf : Fits b ops) :
     bytes (run b ops).1 = written [] (ops.zip ((run b ops).2.map Out.isFault)) := by
